@@ -88,7 +88,46 @@ func hasDeferredRecover(f *ssa.Function) bool {
 // runBy: is f a closure passed to the named synchronous runner somewhere in its parent?
 func runBy(f *ssa.Function, pkg, name string) bool {
 	if f.Parent() == nil {
-		return false
+		// a method that is only ever used as a method value handed to pkg.name (once.Do(x.release)) and never
+		// called directly
+		fo, _ := f.Object().(*types.Func)
+		if fo == nil || f.Pkg == nil || f.Signature.Recv() == nil {
+			return false
+		}
+		handed, direct := 0, 0
+		for _, mem := range f.Pkg.Members {
+			_ = mem
+		}
+		for _, g := range allFuncsOfPkg(f.Pkg) {
+			engine.ForEachInstr(g, func(in ssa.Instruction) {
+				call, ok := in.(ssa.CallInstruction)
+				if !ok {
+					return
+				}
+				if engine.SameFunc(engine.CalleeObj(call), fo) {
+					direct++
+				}
+				o := engine.CalleeObj(call)
+				for _, a := range call.Common().Args {
+					mc, ok := a.(*ssa.MakeClosure)
+					if !ok {
+						continue
+					}
+					bf, ok := mc.Fn.(*ssa.Function)
+					if !ok || bf.Synthetic == "" {
+						continue
+					}
+					if mo, ok := bf.Object().(*types.Func); ok && engine.SameFunc(mo, fo) {
+						if o != nil && o.Pkg() != nil && o.Pkg().Path() == pkg && o.Name() == name {
+							handed++
+						} else {
+							direct++
+						}
+					}
+				}
+			})
+		}
+		return handed > 0 && direct == 0
 	}
 	found := false
 	engine.ForEachInstr(f.Parent(), func(in ssa.Instruction) {
@@ -512,4 +551,35 @@ func verifDirOf() string {
 		}
 	}
 	return "/verif"
+}
+
+// allFuncsOfPkg lists the functions and methods (with their closures) of an SSA package.
+func allFuncsOfPkg(pk *ssa.Package) []*ssa.Function {
+	var out []*ssa.Function
+	var add func(f *ssa.Function)
+	add = func(f *ssa.Function) {
+		if f == nil || f.Blocks == nil {
+			return
+		}
+		out = append(out, f)
+		for _, a := range f.AnonFuncs {
+			add(a)
+		}
+	}
+	for _, m := range pk.Members {
+		switch x := m.(type) {
+		case *ssa.Function:
+			add(x)
+		case *ssa.Type:
+			for _, t := range []types.Type{x.Type(), types.NewPointer(x.Type())} {
+				ms := pk.Prog.MethodSets.MethodSet(t)
+				for i := 0; i < ms.Len(); i++ {
+					if fn := pk.Prog.MethodValue(ms.At(i)); fn != nil && fn.Pkg == pk {
+						add(fn)
+					}
+				}
+			}
+		}
+	}
+	return out
 }
